@@ -8,15 +8,15 @@ import numpy as np
 
 from .. import models
 from ..core import RunResult, adigest, mix
-from .pool_common import make_sim, patched_mp, pool_reach
+from .pool_common import isolated_module_state, make_sim, patched_mp, pool_reach
 
 NAME = "A8"
 PROPERTY = "C08"
 RUNS = {"quick": 500, "thorough": 20000}
 RUN_WALL_CAP = 30.0
-REQUIRED_PROBES = {"quick": ["pool_branch_entered", "two_chunks_two_workers", "rectangular", "degenerate_row", "tol_given", "tol_defaulted", "out_of_order_completion"], "thorough": ["pool_branch_entered", "two_chunks_two_workers", "rectangular", "degenerate_row", "tol_given", "tol_defaulted", "out_of_order_completion", "sixtyone_worker_pool"]}
+REQUIRED_PROBES = {"quick": ["pool_branch_entered", "two_chunks_two_workers", "rectangular", "degenerate_row", "tol_given", "tol_defaulted", "out_of_order_completion", "same_shape_game_sequence"], "thorough": ["pool_branch_entered", "two_chunks_two_workers", "rectangular", "degenerate_row", "tol_given", "tol_defaulted", "out_of_order_completion", "sixtyone_worker_pool", "same_shape_game_sequence"]}
 COMPONENTS = {"real": ["toqito.nonlocal_games.XORGame.classical_value / to_nonlocal_game", "NonlocalGame.classical_value / process_iteration", "pickle round trip of every chunk"], "stub": ["multiprocessing.Pool -> SimPool", "os.cpu_count (simulated)"]}
-RULE = ("one run = one XOR game with 10..12 x 10..13 questions (square and rectangular, uniform / skewed / zero-row distributions, planted unique optimal sign assignment at "
+RULE = ("one run = a history of 1..3 XOR games (next one of the same shape and different contents, or a fresh shape; first game evaluated once more at the end) with 10..12 x 10..13 questions (square and rectangular, uniform / skewed / zero-row distributions, planted unique optimal sign assignment at "
         "adversarial enumeration positions, tol given or defaulted) x one simulated pool configuration; non-trivial = pool branch entered with >=2 workers and >=2 chunks or a 1/61-worker edge; "
         "distinct = distinct digest of (game, pool event order)")
 SHRINK_ORDER = ["config", "game", "pool", "pool2"]
@@ -34,11 +34,14 @@ def preload():
     _mods()
 
 
-def draw_xor(st):
-    q_small = st.int_range(10, 12)
-    q_big = st.int_range(q_small, 13)
-    alice_small = bool(st.draw(2))
-    q0, q1 = (q_small, q_big) if alice_small else (q_big, q_small)
+def draw_xor(st, like=None):
+    if like is not None:
+        q0, q1 = like["shape"]
+    else:
+        q_small = st.int_range(10, 12)
+        q_big = st.int_range(q_small, 13)
+        alice_small = bool(st.draw(2))
+        q0, q1 = (q_small, q_big) if alice_small else (q_big, q_small)
     rng = st.nprng()
     qk = st.weighted([("uniform", 3), ("dirichlet", 3), ("zero_row", 3), ("sparse", 2)])
     if qk == "uniform":
@@ -82,52 +85,76 @@ def draw_xor(st):
 
 
 def run(cs, tier, run_index):
-    res = RunResult()
     M, X = _mods()
+    with isolated_module_state([M, X], [M.NonlocalGame, X.XORGame]):
+        return _run(cs, tier, run_index, M, X)
+
+
+def _run(cs, tier, run_index, M, X):
+    res = RunResult()
     cfg = cs.s("config")
     second = cfg.draw(4) == 1
     tol_given = bool(cfg.draw(2))
-    prob, pred, meta = draw_xor(cs.s("game"))
-    q0, q1 = meta["shape"]
-    if q0 != q1:
-        res.probe("rectangular")
-    if np.any(prob.sum(axis=1) == 0) or np.any(prob.sum(axis=0) == 0):
-        res.probe("degenerate_row")
+    n_extra = cfg.weighted([(0, 5), (1, 3), (2, 2)])
+    if run_index % 16 == 4:
+        n_extra = max(n_extra, 1)
+    games = [draw_xor(cs.s("game"))]
+    for j in range(n_extra):
+        hs = cs.s(f"game:{j + 1}")
+        like = games[-1][2] if hs.draw(3) else None
+        games.append(draw_xor(hs, like=like))
+        if like is not None:
+            res.probe("same_shape_game_sequence")
     res.probe("tol_given" if tol_given else "tol_defaulted")
-    if "planted" in meta:
-        res.probe("planted_optimum:" + meta["planted"]["position"])
-    prob0, pred0 = prob.copy(), pred.copy()
-    expected = models.xor_classical_bf(prob, pred)
-    try:
-        game = X.XORGame(prob, pred, tol=1e-9) if tol_given else X.XORGame(prob, pred)
-    except Exception as e:
-        res.violate("C08.pool.value", why="constructor raised on a valid game", exc=type(e).__name__, msg=str(e)[:200], **meta)
-        return res
     sim = make_sim(cs, res, "pool", [M, X], [M.NonlocalGame, X.XORGame])
     if run_index % 16 == 1:
         sim.cpu_count = 1
     elif run_index % 16 == 2 and tier == "thorough":
         sim.cpu_count = 61
-    out = call(M, game, sim)
+    objs, expected, outcomes = [], [], []
+    order = list(range(len(games))) + ([0] if len(games) > 1 else [])
+    for pos, gi in enumerate(order):
+        prob, pred, meta = games[gi]
+        if pos < len(games):
+            q0, q1 = meta["shape"]
+            if q0 != q1:
+                res.probe("rectangular")
+            if np.any(prob.sum(axis=1) == 0) or np.any(prob.sum(axis=0) == 0):
+                res.probe("degenerate_row")
+            if "planted" in meta:
+                res.probe("planted_optimum:" + meta["planted"]["position"])
+            expected.append(models.xor_classical_bf(prob, pred))
+            try:
+                g = X.XORGame(prob, pred, tol=1e-9) if tol_given else X.XORGame(prob, pred)
+            except Exception as e:
+                res.violate("C08.pool.value", why="constructor raised on a valid game", exc=type(e).__name__, msg=str(e)[:200], **meta)
+                return res
+            objs.append((g, prob.copy(), pred.copy()))
+        game, prob0, pred0 = objs[gi]
+        chunks_before = sim.chunks
+        out = call(M, game, sim)
+        outcomes.append(out)
+        res.log.add("pool", pos, gi, meta["shape"], sim.max_workers, sim.chunks - chunks_before, sim.completion_order[-64:], repr(out[1])[:40])
+        res.checks_sim += 1
+        judge(res, out, expected[gi], dict(meta, position_in_history=pos, games_in_history=len(games)), sim)
+        res.checks_sim += 1
+        if not (np.array_equal(game.prob_mat, prob0) and np.array_equal(game.pred_mat, pred0)):
+            res.violate("C08.hist.order", why="XOR game object changed by classical_value through the pool", **meta)
+            break
     nontrivial = pool_reach(sim, res)
-    res.log.add("pool", meta["shape"], sim.max_workers, sim.chunks, sim.completion_order[:64], repr(out[1])[:40])
-    res.checks_sim += 1
-    judge(res, out, expected, meta, sim)
-    res.checks_sim += 1
-    if not (np.array_equal(game.prob_mat, prob0) and np.array_equal(game.pred_mat, pred0)):
-        res.violate("C08.hist.order", why="XOR game object changed by classical_value through the pool", **meta)
-    if second and out[0] == "ok":
+    out = outcomes[0]
+    if second and out[0] == "ok" and not res.violations:
         sim2 = make_sim(cs, res, "pool2", [M, X], [M.NonlocalGame, X.XORGame])
-        out2 = call(M, game, sim2)
+        out2 = call(M, objs[0][0], sim2)
         pool_reach(sim2, res)
         res.probe("second_pool_config_compared")
         res.checks_sim += 1
         if out2[0] != "ok" or not _num(out2[1]) or abs(float(out2[1]) - float(out[1])) > TOL:
-            res.violate("C08.pool.value", why="two pool configurations disagree", first=repr(out[1])[:60], second=repr(out2[1])[:60], workers=[sim.max_workers, sim2.max_workers], **meta)
+            res.violate("C08.pool.value", why="two pool configurations disagree", first=repr(out[1])[:60], second=repr(out2[1])[:60], workers=[sim.max_workers, sim2.max_workers], **games[0][2])
     res.nontrivial = nontrivial
-    res.case_key = "%016x" % mix(adigest(prob0), adigest(pred0), sim.max_workers, tuple(sim.completion_order))
+    res.case_key = "%016x" % mix([adigest(g[0]) + adigest(g[1]) for g in games], sim.max_workers, tuple(sim.completion_order))
     res.interleaving = "%016x" % mix(sim.max_workers, tuple(sim.completion_order))
-    res.sample = {"game": meta, "workers": sim.max_workers, "chunks": sim.chunks, "completion_order_head": sim.completion_order[:16], "value": repr(out[1])[:30], "model": expected, "tol_given": tol_given}
+    res.sample = {"games": [g[2] for g in games], "call_order": order, "workers": sim.max_workers, "chunks": sim.chunks, "completion_order_head": sim.completion_order[:16], "values": [repr(o[1])[:24] for o in outcomes], "models": expected, "tol_given": tol_given}
     return res
 
 
